@@ -6,9 +6,10 @@ import (
 	"math"
 
 	be "github.com/echoface/be_indexer"
+	"github.com/echoface/be_indexer/roaringidx"
 )
 
-const c16Rule = "exhaustive over the universe of value shapes (every scalar kind, every typed slice incl. empty and typed nil, fixed-size arrays, []interface{} with nil / nested / bool elements, maps, pointers, channels, funcs, structs, complex, untyped nil) x {field with default container, pattern container, range container, number parser, unknown field} x {k-groups, compact, roaring} x index states {ordinary documents; no document; configured pattern/range/default fields whose holders are empty (empty value lists, unparsable values skipped)}; every hostile retrieval is followed by ordinary retrievals on the same index/scanner; plus every shape on indexes published three times by one builder (panic-freedom only). retrievals with the WithStepDetail / WithDumpEntries options over keywords of 1..40 bytes (multi-byte ones of 6..24 characters), extreme numbers and range pieces; Non-trivial = the hostile value reaches a holder of a known field (the retrieval returns an error or a result computed from it); distinct = distinct input"
+const c16Rule = "exhaustive over the universe of value shapes (every scalar kind, every typed slice incl. empty and typed nil, fixed-size arrays, []interface{} with nil / nested / bool elements, maps, pointers, channels, funcs, structs, complex, untyped nil) x {field with default container, pattern container, range container, number parser, unknown field} x {k-groups, compact, roaring} x index states {ordinary documents; no document; configured pattern/range/default fields whose holders are empty (empty value lists, unparsable values skipped)}; every hostile retrieval is followed by ordinary retrievals on the same index/scanner; plus every shape on indexes published three times by one builder (panic-freedom only). retrievals with the WithStepDetail / WithDumpEntries options over keywords of 1..40 bytes (multi-byte ones of 6..24 characters), extreme numbers and range pieces; roaring indexes whose builder went on adding documents (keywords of the other polarity) after BuildIndexer, queried before the next build; Non-trivial = the hostile value reaches a holder of a known field (the retrieval returns an error or a result computed from it); distinct = distinct input"
 
 // emptyListHolder: the stock default holder, except that "nothing matched" is an empty NON-nil cursor list
 type emptyListHolder struct{ *be.DefaultEntriesHolder }
@@ -83,7 +84,7 @@ func init() {
 					c.Docs = append(c.Docs, eDoc{ID: int64(i + 1), Cons: []eConj{{{F: 1, Inc: i%3 != 2, V: tvSlice("[]string", tvStr(k))}}}})
 				}
 				c.Docs = append(c.Docs,
-					eDoc{ID: 50, Cons: []eConj{{{F: 0, Inc: true, V: tvSlice("[]int64", tvInt("int64", 1<<62), tvInt("int64", -(1 << 62)))}, {F: 2, Inc: true, Op: 3, V: tvSlice("[]int64", tvInt("int64", -(1 << 61)), tvInt("int64", 1<<61))}}}},
+					eDoc{ID: 50, Cons: []eConj{{{F: 0, Inc: true, V: tvSlice("[]int64", tvInt("int64", 1<<62), tvInt("int64", -(1<<62)))}, {F: 2, Inc: true, Op: 3, V: tvSlice("[]int64", tvInt("int64", -(1<<61)), tvInt("int64", 1<<61))}}}},
 					eDoc{ID: 51, Cons: []eConj{{{F: 4, Inc: true, V: tvSlice("[]int64", tvInt("int64", 1<<62))}, {F: 0, Inc: false, V: tvStr("a rather long text value on a default field")}}}})
 				for _, k := range kws {
 					c.Queries = append(c.Queries, eQuery{A: []eAssign{{F: 1, V: tvStr("标语: " + k + "!")}}, Debug: true}, eQuery{A: []eAssign{{F: 1, V: tvSlice("[]string", tvStr(k), tvStr("x"))}, {F: 0, V: tvInt("int64", 1<<62)}, {F: 2, V: tvInt("int64", 5)}}, Debug: true})
@@ -206,6 +207,32 @@ func init() {
 					}
 				}
 				restore()
+			}
+			// roaring builders that go on after BuildIndexer (documents with keywords / values of a polarity the built
+			// index has not seen, no rebuild yet): the published index is queried in that window
+			for _, incFirst := range []bool{true, false} {
+				b := roaringidx.NewIndexerBuilder()
+				b.ConfigureField(string(fieldName(0)), roaringidx.FieldSetting{Container: "default"})
+				b.ConfigureField(string(fieldName(1)), roaringidx.FieldSetting{Container: roaringidx.ContainerNameAcMatch})
+				d1 := eDoc{ID: 1, Cons: []eConj{{{F: 1, Inc: incFirst, V: tvSlice("[]string", tvStr("apple"))}, {F: 0, Inc: incFirst, V: tvSlice("[]int", tvInt("int", 1))}}}}
+				d2 := eDoc{ID: 2, Cons: []eConj{{{F: 1, Inc: !incFirst, V: tvSlice("[]string", tvStr("day"), tvStr("apple"))}, {F: 0, Inc: !incFirst, V: tvSlice("[]int", tvInt("int", 2))}}}}
+				if safeCall(func() { b.AddDocument(d1.build()) }) {
+					continue
+				}
+				var idx *roaringidx.IvtBEIndexer
+				if safeCall(func() { idx, _ = b.BuildIndexer() }) || idx == nil {
+					continue
+				}
+				safeCall(func() { b.AddDocument(d2.build()) })
+				for _, v := range append(allShapes(), tvStr("an apple a day"), tvSlice("[]string", tvStr("an apple"), tvStr("a day")), tvList(tvStr("day")), tvStr("")) {
+					for _, q := range []be.Assignments{{fieldName(1): v.Value()}, {fieldName(0): 2, fieldName(1): v.Value()}, {fieldName(0): v.Value()}} {
+						calls++
+						sc := roaringidx.NewScanner(idx)
+						if (safeCall(func() { sc.Retrieve(q) }) || safeCall(func() { sc.Reset(); sc.RetrieveDocs(q) })) && len(viol) < 5 {
+							viol = append(viol, fmt.Sprintf("Retrieve panicked on a roaring index whose builder went on adding documents after BuildIndexer: value %s", v.T))
+						}
+					}
+				}
 			}
 			// fields whose values go through the geohash parser (not in the Coq model): panic-freedom of Retrieve only,
 			// for the default option and for precisions finer than the compression cutoff
